@@ -92,11 +92,11 @@ class Ctx:
                 raise BrokenObligation("repo-build", r.stdout[-3000:])
         return bdir
 
-    def build_harness(self, name, variant="default", libs=("GMGPolarLib", "InputFunctions", "PolarGrid"), extra=()):
+    def build_harness(self, name, variant="default", libs=("GMGPolarLib", "InputFunctions", "PolarGrid"), extra=(), out_name=None):
         bdir = self.build_repo(variant)
         out_dir = os.path.join(BUILD, "harness-" + variant)
         os.makedirs(out_dir, exist_ok=True)
-        out = os.path.join(out_dir, name)
+        out = os.path.join(out_dir, out_name or name)
         src = os.path.join(ROOT, "harness", name + ".cpp")
         cxx = {"tsan": "clang++-14"}.get(variant, "g++")
         flags = {"default": ["-O1"], "asan": ["-O1", "-g", "-fsanitize=address,undefined", "-fno-sanitize-recover=all"],
